@@ -114,4 +114,94 @@ theorem known_C09_hangul_tbase :
     composeHangul genH 0xAC00 0x11A7 = some 0xAC00 ∧ decomposeHangul genH 0xAC00 = some (0x1100, 0x1161) := by
   decide
 
+/-! ## one-character buffers -/
+
+/-- **C09, one-character buffers.**  `Cand U F c k out` (Lemmas/Norm.lean): following `k` links of the
+    decomposition chain of `c` reaches a character the font maps, all second components on the way are
+    mapped, and `out` is that character followed by the second components. -/
+theorem C09_single (U : UData) (F : Font) (K : Consts) (fuel pref : Nat) (x : Info) (flags : Nat) :
+    -- (1) short-circuiting modes leave a supported character alone
+    (mightPref pref → ∀ g, F.glyph x.cp = some g →
+      normalize U F K fuel pref [x] flags = some ([{ x with gidx := g }], flags)) ∧
+    -- (2) unsupported character, some candidate exists: the candidate of least depth is output
+    (mightPref pref → F.glyph x.cp = none → (decompose U F true fuel x.cp).isSome →
+      (∃ k out, Cand U F x.cp k out) →
+      ∃ k l f, normalize U F K fuel pref [x] flags = some (l, f) ∧ Cand U F x.cp k (l.map (·.cp)) ∧
+        (∀ i ∈ l, F.glyph i.cp = some i.gidx ∧ i.cluster = x.cluster ∧ i.mask = x.mask) ∧
+        (∀ k' out', Cand U F x.cp k' out' → k ≤ k')) ∧
+    -- (3) unsupported character, no candidate: the character is kept (fallback glyph or .notdef)
+    (mightPref pref → F.glyph x.cp = none → (decompose U F true fuel x.cp).isSome →
+      (∀ k out, ¬Cand U F x.cp k out) →
+      ∃ g p f, normalize U F K fuel pref [x] flags = some ([{ x with gidx := g, props := p }], f)) ∧
+    -- (4) never-short-circuiting modes: the deepest candidate is output, supported or not
+    (fullPref pref → (decompose U F false fuel x.cp).isSome → (∃ k out, Cand U F x.cp k out) →
+      ∃ k l f, normalize U F K fuel pref [x] flags = some (l, f) ∧ Cand U F x.cp k (l.map (·.cp)) ∧
+        (∀ i ∈ l, F.glyph i.cp = some i.gidx ∧ i.cluster = x.cluster ∧ i.mask = x.mask) ∧
+        (∀ k' out', Cand U F x.cp k' out' → k' ≤ k)) ∧
+    -- (5) never-short-circuiting modes, no candidate: kept, with the font's glyph if it has one
+    (fullPref pref → (decompose U F false fuel x.cp).isSome → (∀ k out, ¬Cand U F x.cp k out) →
+      ∃ g p f, normalize U F K fuel pref [x] flags = some ([{ x with gidx := g, props := p }], f) ∧
+        (∀ g', F.glyph x.cp = some g' → g = g' ∧ p = x.props ∧ f = flags)) := by
+  refine ⟨?_, ?_, ?_, ?_, ?_⟩
+  · intro hp g hg
+    obtain ⟨g0, p, f, h1, h2⟩ := normalize_single_kept U F K fuel pref x flags true (might_of pref hp)
+      (by simp [hg])
+    obtain ⟨e1, e2, e3⟩ := h2 g hg
+    rw [h1, e1, e2, e3]
+  · intro hp hg hfu hex
+    obtain ⟨r, hr⟩ := Option.isSome_iff_exists.mp hfu
+    have sh := decompose_shortest U F fuel x.cp r hr
+    have hne : r ≠ [] := by
+      intro h0
+      obtain ⟨k, out, hc⟩ := hex
+      exact sh.2 h0 k out hc
+    obtain ⟨k, hk1, hk2, hk3⟩ := sh.1 hne
+    obtain ⟨l, f, h1, h2, h3⟩ := normalize_single_decomposed U F K fuel pref x flags true (might_of pref hp) r hne
+      (by simp [hg, hr]) hk2
+    exact ⟨k, l, f, h1, by rw [h2]; exact hk1, h3, hk3⟩
+  · intro hp hg hfu hno
+    obtain ⟨r, hr⟩ := Option.isSome_iff_exists.mp hfu
+    have sh := decompose_shortest U F fuel x.cp r hr
+    have h0 : r = [] := by
+      apply Classical.byContradiction
+      intro hne
+      obtain ⟨k, hk1, _, _⟩ := sh.1 hne
+      exact hno _ _ hk1
+    subst h0
+    obtain ⟨g, p, f, h1, _⟩ := normalize_single_kept U F K fuel pref x flags true (might_of pref hp)
+      (by simp [hg, hr])
+    exact ⟨g, p, f, h1⟩
+  · intro hp hfu hex
+    obtain ⟨r, hr⟩ := Option.isSome_iff_exists.mp hfu
+    have sh := decompose_full U F fuel x.cp r hr
+    have hne : r ≠ [] := by
+      intro h0
+      obtain ⟨k, out, hc⟩ := hex
+      exact sh.2 h0 k out hc
+    obtain ⟨k, hk1, hk2, hk3⟩ := sh.1 hne
+    obtain ⟨l, f, h1, h2, h3⟩ := normalize_single_decomposed U F K fuel pref x flags false (full_of pref hp) r hne
+      (by simp [hr]) hk2
+    exact ⟨k, l, f, h1, by rw [h2]; exact hk1, h3, hk3⟩
+  · intro hp hfu hno
+    obtain ⟨r, hr⟩ := Option.isSome_iff_exists.mp hfu
+    have sh := decompose_full U F fuel x.cp r hr
+    have h0 : r = [] := by
+      apply Classical.byContradiction
+      intro hne
+      obtain ⟨k, hk1, _, _⟩ := sh.1 hne
+      exact hno _ _ hk1
+    subst h0
+    exact normalize_single_kept U F K fuel pref x flags false (full_of pref hp) (by simp [hr])
+
+
+/-- non-vacuity: U+1EA4 (Â with acute) in a font that has only A, the circumflex and the acute has the
+    depth-2 candidate `A, U+0302, U+0301`, and no candidate of depth 1 -/
+example : let F : Font := { glyph := fun c => if c = 0x41 ∨ c = 0x302 ∨ c = 0x301 then some 1 else none }
+    Cand genU F 0x1EA4 2 [0x41, 0x302, 0x301] ∧ (decompose genU F true genFuel 0x1EA4).isSome := by
+  intro F
+  have d1 : genU.decomp 0x1EA4 = some (0xC2, 0x301) := by decide +kernel
+  have d2 : genU.decomp 0xC2 = some (0x41, 0x302) := by decide +kernel
+  refine ⟨?_, by decide +kernel⟩
+  exact Cand.step d1 (Or.inr (by decide)) (Cand.base d2 (by decide) (Or.inr (by decide)))
+
 end RbModel.Props.C09
